@@ -34,7 +34,7 @@ class Scen:
 
     def setup(self):
         r = self.r
-        self.bounds = r.choice([[f64(0.005), f64(0.5), f64(1.0), f64(2.5)], [f64(1.0)], gens.good_buckets(r), []])
+        self.bounds = r.choice([[f64(0.005), f64(0.5), f64(1.0), f64(2.5)], [f64(1.0)], gens.good_buckets(r), [], [gens.PINF]])   # [+Inf] alone: no finite bound at all
         o = mkopts(r.choice(["lat", "h", "req_seconds"]), "help")
         if r.random() < 0.75:
             self.new("H", "OpHistogram", dict(opts=o, buckets=self.bounds))
